@@ -79,7 +79,7 @@ void c_fileEnsureDirectory(FileName fileName)
 # define PRE_libClose_sanity
 #endif
 #define PRE_libClose(lib) \
-	(__CPROVER_is_fresh(lib, sizeof(*(lib))) && (lib)->rdOnly == 0 && (lib)->unitb == 0 && \
+	(__CPROVER_is_fresh(lib, sizeof(*(lib))) && (lib)->rdOnly == 0 && (lib)->isOutput != 0 /* = libWrite(fn), see job lib.libWrite */ && (lib)->unitb == 0 && \
 	 (lib)->file == &v_stream[0] && g_nopen == 1 && g_open[0] && !g_open[1] && !g_open[2] && !g_open[3] && \
 	 g_reported == 0 && (g_io_failed ? g_err[0] : 1) /* ghost invariant of the I/O model: a failed write on the one open stream left its sticky error indicator set */ \
 	 PRE_libClose_sanity)
